@@ -285,7 +285,9 @@ pub(crate) fn decrypt(opts: DecryptOptions) -> Result<(), anyhow::Error> {
 pub(crate) fn gen_key(outfile: Option<String>, env_pass: bool) -> Result<(), anyhow::Error> {
     let name = ask_user_stderr("Key name: ")?;
     if !Keyring::valid_key_name(&name) {
-        return Err(anyhow!("Name must be between 1 and 128 characters."));
+        return Err(anyhow!(
+            "Name must be between 1 and 128 characters and must not contain tabs."
+        ));
     }
 
     let pass = confirm_password("New password: ", env_pass)?;
